@@ -1677,7 +1677,11 @@ class CodeGenerator(NodeVisitor):
     def visit_Const(self, node: nodes.Const, frame: Frame) -> None:
         val = node.as_const(frame.eval_ctx)
         if isinstance(val, float):
-            self.write(str(val))
+            if val != val or val in (float("inf"), float("-inf")):
+                # inf and nan have no literal, their str() is a name
+                self.write(f"float({str(val)!r})")
+            else:
+                self.write(str(val))
         else:
             self.write(repr(val))
 
